@@ -399,6 +399,7 @@ inductive AddrForm where
   | got        -- `mov sym@GOTPCREL(%rip), %rax`           through the global offset table
   | tlsGD      -- `data16 lea sym@tlsgd(%rip), %rdi; .value 0x6666; rex64; call __tls_get_addr@PLT`  general dynamic
   | tlsLE      -- `mov %fs:0, %rax; add $sym@tpoff, %rax`  local exec
+  | tlsIE      -- `mov sym@gottpoff(%rip), %rax; add %fs:0, %rax`  initial exec (the repair of C15-extern-tls-local-exec)
   deriving DecidableEq, Repr, Inhabited
 
 def classifyForm (ls : List String) : Option AddrForm :=
@@ -408,8 +409,41 @@ def classifyForm (ls : List String) : Option AddrForm :=
   else if ls = ["  mov %s@GOTPCREL(%%rip), %%rax"] then some .got
   else if ls = ["  data16 lea %s@tlsgd(%%rip), %%rdi", "  .value 0x6666", "  rex64", "  call __tls_get_addr@PLT"] then some .tlsGD
   else if ls = ["  mov %%fs:0, %%rax", "  add $%s@tpoff, %%rax"] then some .tlsLE
+  else if ls = ["  mov %s@gottpoff(%%rip), %%rax", "  add %%fs:0, %%rax"] then some .tlsIE
   else none
 
 def addrForm (c : Gen.AddrForms.VarCtx) : Option AddrForm := classifyForm (Gen.AddrForms.genAddrVar c)
+
+/-- The ladder as `tools/extract/addrforms.py` prints it for the REPAIRED gen_addr (candidate repair of
+    C15-extern-tls-local-exec: in non-PIC code local exec only for a thread-local object the unit defines, initial exec
+    otherwise).  Once the repair is in /repo, `Gen.AddrForms.genAddrVar` is this function and `externTlsRegion` is empty. -/
+def genAddrVarFixed (c : Gen.AddrForms.VarCtx) : List String :=
+  if c.isVla then
+    ["  mov %d(%%rbp), %%rax"]
+  else
+    if c.isLocal then
+      ["  lea %d(%%rbp), %%rax"]
+    else
+      if c.fpic then
+        if c.isTls then
+          ["  data16 lea %s@tlsgd(%%rip), %%rdi", "  .value 0x6666", "  rex64", "  call __tls_get_addr@PLT"]
+        else
+          ["  mov %s@GOTPCREL(%%rip), %%rax"]
+      else
+        if c.isTls then
+          if c.isDefinition then
+            ["  mov %%fs:0, %%rax", "  add $%s@tpoff, %%rax"]
+          else
+            ["  mov %s@gottpoff(%%rip), %%rax", "  add %%fs:0, %%rax"]
+        else
+          if c.isFunc then
+            if c.isDefinition then
+              ["  lea %s(%%rip), %%rax"]
+            else
+              ["  mov %s@GOTPCREL(%%rip), %%rax"]
+          else
+            ["  lea %s(%%rip), %%rax"]
+
+def addrFormFixed (c : Gen.AddrForms.VarCtx) : Option AddrForm := classifyForm (genAddrVarFixed c)
 
 end ChibiVerif.Linkage
